@@ -3913,6 +3913,16 @@ def _dSIS_effective_degree_(X, t, original_shape, tau, gamma):
                 for s in range(original_shape[0])])
     SI = sum([sum([i*Ssi[s,i] for i in range(original_shape[1])]) 
                 for s in range(original_shape[0])])
+    #if there are no S-S (S-I) pairs the triple counts ISS (ISI) vanish as well; 
+    #take the ratio to be 0 rather than 0/0
+    if SS == 0:
+        ISS_over_SS = 0
+    else:
+        ISS_over_SS = ISS/SS
+    if SI == 0:
+        ISI_over_SI = 0
+    else:
+        ISI_over_SI = ISI/SI
 
     g1 = np.zeros(original_shape)
     g2 = np.zeros(original_shape)
@@ -3938,10 +3948,10 @@ def _dSIS_effective_degree_(X, t, original_shape, tau, gamma):
             
             dSsi[s,i] = -tau*i*Ssi[s,i] + gamma*Isi[s,i] \
                         + gamma*((i+1)*Ssm1ip1 - i*Ssi[s,i]) \
-                        + tau*ISS*((s+1)*Ssp1im1 - s*Ssi[s,i])/SS
+                        + tau*ISS_over_SS*((s+1)*Ssp1im1 - s*Ssi[s,i])
             dIsi[s,i] =  tau*i*Ssi[s,i] - gamma*Isi[s,i] \
                         + gamma*((i+1)*Ism1ip1 - i*Isi[s,i]) \
-                        + tau*(ISI/SI + 1)*((s+1)*Isp1im1 - s*Isi[s,i])# 
+                        + tau*(ISI_over_SI + 1)*((s+1)*Isp1im1 - s*Isi[s,i])# 
 
     dSsi.shape = (original_shape[0]*original_shape[1])
     dIsi.shape = (original_shape[0]*original_shape[1])
@@ -3958,6 +3968,12 @@ def _dSIR_effective_degree_(X, t, N, original_shape, tau, gamma):
                 for s in range(original_shape[0])])
     SS = sum([sum([s*Ssi[s,i] for i in range(original_shape[1])]) 
                 for s in range(original_shape[0])])
+    #if there are no S-S pairs the triple count ISS vanishes as well; take the 
+    #ratio to be 0 rather than 0/0
+    if SS == 0:
+        ISS_over_SS = 0
+    else:
+        ISS_over_SS = ISS/SS
     
     #commenting out commands for vectorizing this.  
     #I should do this eventually, but not now.  Apply to SIS version as well.
@@ -3989,7 +4005,7 @@ def _dSIR_effective_degree_(X, t, N, original_shape, tau, gamma):
             else:
                 Ssp1im1 = Ssi[s+1,i-1]    
             dSsi[s,i] = -tau*i*Ssi[s,i] + gamma*((i+1)*Ssip1 - i*Ssi[s,i]) \
-                        + tau*ISS*((s+1)*Ssp1im1 - s*Ssi[s,i])/SS
+                        + tau*ISS_over_SS*((s+1)*Ssp1im1 - s*Ssi[s,i])
     S = Ssi.sum() 
     I = N-S-R
     dR = gamma*I
